@@ -534,3 +534,51 @@ def vc_trans_simple(prog, mpt=False, has_pp=True):
     rep = verify_function(prog, fv, setup, goals, models=K.base_models(),
                           name=f"SimpleMatcher.logprob_trans[{'node' if mpt else 'edge'},{'pp' if has_pp else 'no-pp'}]")
     return fv, rep
+
+
+# =============================================================================================== LatticeColumn.set_delayed
+def vc_set_delayed(prog, ecls='BaseMatching'):
+    """Re-activation of a column (C08): for a column with ANY number of layers of ANY size (foreach rule, nested), every
+    entry's round is set to the given one, whatever it was, and nothing else of an entry is written."""
+    fv = prog.func(K.BASE, 'LatticeColumn.set_delayed')
+    st = {}
+
+    def setup(ctx, it):
+        st.clear()
+        matcher = K.mk_matcher('BaseMatcher')
+
+        def entry(it_):
+            m = K.mk_matching(f"e{len(st.setdefault('entries', []))}", matcher, ecls, edge_m=K.mk_segment('e_em', False, True),
+                              edge_o=K.mk_segment('e_eo', True))
+            m.f['delayed'] = it_.ctx.fresh('e_delayed', 'I')          # arbitrary round, also one far in the past or future
+            st['entries'].append((m, dict(m.f)))
+            return m, []
+
+        def layer(it_):
+            lay = Obj('Layer', entries=SymColl('layer.values', entry))
+            return lay, []
+        col = Obj('LatticeColumn', obs_idx=I('col_idx'), o=SymColl('layers', layer))
+        st['d'] = I('new_round')
+        return [col, st['d']], {}
+    models = dict(K.base_models())
+    models[('meth', 'Layer', 'values')] = Model('dict.values', lambda it, lay: lay.f['entries'])
+
+    def end_goals(ctx, why):
+        g = []
+        inner = [e for e in ctx.events if e.kind == 'iter-begin' and len(e.loops) == 2]
+        if not inner:
+            return g
+        m = inner[-1].elem
+        m0 = [b for a, b in st.get('entries', []) if a is m]
+        if not m0:
+            return [('reactivate:entry-is-an-entry-of-the-column', z3.BoolVal(False))]
+        g.append(('reactivate:every-entry-gets-the-given-round', m.f['delayed'] == st['d']))
+        g.append(('reactivate:nothing-else-of-the-entry-changes', b2z(zand(*[
+            (m.f[k] is m0[0][k]) if isinstance(m0[0][k], (Obj, SetVal)) or m0[0][k] is None else eq(m.f[k], m0[0][k])
+            for k in m0[0] if k != 'delayed']))))
+        return g
+
+    def goals(ctx, res):
+        return [('reactivate:returns-nothing', b2z(res is None))]
+    rep = verify_function(prog, fv, setup, goals, models=models, end_goals=end_goals, name=f"LatticeColumn.set_delayed[{ecls}]")
+    return fv, rep
